@@ -1,4 +1,4 @@
-/* C07-corpus: known C07:bitfield-alias
+/* C07-corpus: pass   (was known C07:bitfield-alias until /repo 39040589)
    the expression type of a bit-field narrower than int is `int`, and c2mir derives the alias name of
    the storage-unit access from the expression type: accesses to ONE 64-bit unit get alias "i" (f0)
    and "L" (f1), so the MIR optimizer (-O2, -O3, -el, -eb) treats the read-modify-write sequences
